@@ -14,8 +14,8 @@ from __future__ import annotations
 from typing import List
 
 from vflib import graphcheck, models, progs
-from vflib.engine import (Violation, assume, bound_int, chars_not_in, mark,
-                          require)
+from vflib.engine import (Violation, assume, bound_int, chars_below,
+                          chars_not_in, mark, require)
 from vflib.oracles import ref_interpret, tree_variables
 from vflib.progs import NO_CONCEPT
 from vflib.props.c02 import well_formed
@@ -31,7 +31,7 @@ BOUNDS = {
     'quick': 'trees of <= 2 branches (every key x attributes_first), 3 '
              'branches for two key settings; symbolic key (ranks in 0..2 per '
              'catalogue role) on a 3-branch node; new top on 3-node decoded '
-             'graphs; role strings of <= 4 characters for the key leaf',
+             'graphs; ASCII role strings of <= 5 characters for the key leaf',
     'thorough': 'trees of <= 3 branches for every key setting, 4 for one',
 }
 ASSUMPTIONS = [
@@ -270,6 +270,12 @@ def h_key_leaf(body: str, maxlen: int, model: str):
     real, ref = models.get(model)
     assume(len(body) <= maxlen)
     chars_not_in(body, '\n')
+    # ASCII only: the Unicode decimal digits (\d, str.isdecimal) make the
+    # path tree of a symbolic character practically unbounded; one non-ASCII
+    # digit is checked concretely below
+    chars_below(body, 128)
+    require(tuple(real.alphanumeric_order(':op\u0663')) == (':op', 3),
+            'non-ASCII decimal digit suffix')
     role = ':' + body
     try:
         got = real.alphanumeric_order(role)
@@ -313,13 +319,15 @@ def obligations(tier: str) -> List[dict]:
         add('h_reconfigure', 'reconfigure', 300, n=2, key='canonical',
             newtop=True, markers=False)
         for ops in OPS2:
-            add('h_reconfigure', 'reconfigure', 400,
-                ['new-top'] if ops == (1, 1) else [], n=3, key='canonical',
-                newtop=True, markers=True, i0_op=ops[0], i1_op=ops[1])
-            add('h_newtop_encode', 'encode new top', 400,
-                ['new-top'] if ops == (1, 1) else [], n=3, i0_op=ops[0],
-                i1_op=ops[1])
-        add('h_key_leaf', 'key leaf', 300, ['numeric-suffix'], maxlen=3,
+            for r0 in range(len(RC_ROLES)):
+                add('h_reconfigure', 'reconfigure', 400,
+                    ['new-top'] if ops == (1, 1) else [], n=3,
+                    key='canonical', newtop=True, markers=True,
+                    i0_op=ops[0], i1_op=ops[1], i0_r=r0)
+                add('h_newtop_encode', 'encode new top', 400,
+                    ['new-top'] if ops == (1, 1) else [], n=3, i0_op=ops[0],
+                    i1_op=ops[1], i0_r=r0)
+        add('h_key_leaf', 'key leaf', 300, ['numeric-suffix'], maxlen=4,
             model='default')
     else:
         OPS2 = [(0, 0), (0, 1), (1, 0), (1, 1), (1, 2)]
